@@ -12,7 +12,7 @@ RULE += ("; lines end in \\n, \\r\\n or a lone \\r (the last possibly unterminat
          "label names / flavours, sys entries and HTTP software carry non-ASCII characters")
 ASSUMPTIONS = ["a 9th colon field / 5th label part is silently "
                "dropped (as the code does)"]
-GEN_TIE = ["sig", "file", "httpx"]   # TCPSignature.parse / MTUSignature.parse and their field parsers are also TRANSLATED (translate/sig2coq.py) on every run and proved equal to the model (Gen/GenSigP.v); so are the line loop of _parse_file, _parse_section, labels and RecordsDatabase.create/add (translate/file2coq.py, Gen/GenFileP.v)
+GEN_TIE = ["sig", "file", "httpx", "re"]   # ("re": the header-splitting regular expression of HTTP signatures, read from the source and proved to be hsplit: translate/re2coq.py, Gen/GenReP.v) TCPSignature.parse / MTUSignature.parse and their field parsers are also TRANSLATED (translate/sig2coq.py) on every run and proved equal to the model (Gen/GenSigP.v); so are the line loop of _parse_file, _parse_section, labels and RecordsDatabase.create/add (translate/file2coq.py, Gen/GenFileP.v)
 EXHAUSTIVE = {}
 
 
